@@ -1536,6 +1536,12 @@ def run(ck, scratch):
                       'refutation is proved) and gc/rmask as unambiguous-base fractions; the correspondence ties that model '
                       'to do_reference / do_reference_flat / calculate_gc_lo on generated cohorts, every code output is also '
                       'checked against an independent oracle of each clause')
+    if os.environ.get('C05_STREAMS') == 'bounded':
+        # development aid (mutation sanity of the bounded-noise oracle alone); never set by ./check
+        for j, c in enumerate(corpus.get('bounded', [])):
+            check_bounded_case(ck, scratch, 'bcorpus%d' % j, unj(c['case']), Fr(c['eps']), c['truth'], 'bounded:corpus')
+        check_bounded_noise(ck, scratch, 12 if quick else 180)
+        return
     # ---- corpus first
     pool_corpus = [(unj(c['case']), None) for c in corpus.get('pool', [])]
     check_pool_cases(ck, scratch, pool_corpus, 'corpus')
